@@ -245,7 +245,9 @@ func (d *Driver) judgeC01() {
 				for _, a := range d.h.Apis {
 					if a.Inst == op.Inst && a.Gen == op.Gen && a.Kind == AStopCtx && a.SInv <= op.SInvoke && (a.TRet < 0 || a.SRet >= op.SInvoke) {
 						calls++
-						if a.WasLeaderAtInv {
+						if a.WasLeaderAtInv || a.OwnerAtInv {
+							// (OwnerAtInv: the live record was this object's when the call came - e.g. its
+							// acquisition had been acknowledged, the promotion not yet made)
 							foundLeader = true
 						}
 						// (the caller may have been stalled before the call's critical section: what
